@@ -177,7 +177,7 @@ def fuel_vol(env, **cfg):
            np.asarray(d).reshape(-1)[0], vols.sum() - share * (fb + s["Wf_reserve"]) / s["fuel_density"])
 
 
-def dangling_inputs(p, scope, allowed=()):
+def dangling_inputs(p, scope, allowed=(), names=()):
     """inputs below `scope` of a set-up model that are left unconnected although a component below the same scope computes
     an output of the same local name (the value the input silently keeps is its declared default)"""
     m = p.model
@@ -192,7 +192,33 @@ def dangling_inputs(p, scope, allowed=()):
             loc = tgt.rsplit(".", 1)[-1]
             if loc in outs and loc not in allowed:
                 res.append("%s (computed by %s)" % (tgt, outs[loc][0]))
+                continue
+            # per-surface inputs of an aircraft-level component: <surface>_<variable> is computed as <variable> inside the
+            # group(s) of that surface
+            for nm in names:
+                if loc.startswith(nm + "_") and loc[len(nm) + 1:] in outs and loc[len(nm) + 1:] not in allowed:
+                    cands = [o for o in outs[loc[len(nm) + 1:]] if any(part == nm or part.startswith(nm + "_") for part in o.split(".")[:-1])]
+                    if cands:
+                        res.append("%s (computed by %s)" % (tgt, cands[0]))
+                        break
     return res
+
+
+def foreign_surface_components(p, names):
+    """components that live in the group of one surface but were built from another surface's dictionary"""
+    bad = []
+    for c in p.model.system_iter(recurse=True):
+        try:
+            sd = c.options["surface"]
+        except Exception:
+            continue
+        if not isinstance(sd, dict) or "name" not in sd:
+            continue
+        for part in c.pathname.split(".")[:-1]:
+            for nm in names:
+                if (part == nm or part.startswith(nm + "_")) and sd["name"] != nm and not any(part == sd["name"] or part.startswith(sd["name"] + "_") for part in c.pathname.split(".")[:-1]):
+                    bad.append("%s is built from the dictionary of '%s'" % (c.pathname, sd["name"]))
+    return sorted(set(bad))
 
 
 def stale_reads(p, scope=""):
@@ -256,7 +282,7 @@ def struct_alone_wiring(env, model, relief, fuel, npm, radius_cp=False):
     env.holds("C16,C10,C15,C03", "SpatialBeamAlone: every input is computed before it is read (no value of the previous run)", not st, "; ".join(st[:4]))
 
 
-@job("c16.aerostruct_point_wiring", ("C16", "C15", "C11", "C17", "C03"), cfgs=[dict(nsurf=1, relief=False, npm=0), dict(nsurf=2, relief=True, npm=2)])
+@job("c16.aerostruct_point_wiring", ("C16", "C15", "C11", "C17", "C03", "C10"), cfgs=[dict(nsurf=1, relief=False, npm=0), dict(nsurf=2, relief=True, npm=2)])
 def aerostruct_point_wiring(env, nsurf, relief, npm):
     """the same for the coupled analysis point of a complete aerostructural model built the documented way (geometry groups
     connected to the point as in the repository's examples), with one and with two structural surfaces: inside the point
@@ -268,6 +294,8 @@ def aerostruct_point_wiring(env, nsurf, relief, npm):
     surfs = []
     for k in range(nsurf):
         s = surface(name=["wing", "tail"][k], nx=2, ny=3, model="tube", struct_weight_relief=relief, n_point_masses=npm, xshift=3.0 * k)
+        if k == 1:
+            s["E"], s["G"], s["yield"] = 0.5 * s["E"], 0.5 * s["G"], 0.4 * s["yield"]          # another material
         if npm == 0:
             s.pop("n_point_masses", None)
         surfs.append(s)
@@ -300,9 +328,12 @@ def aerostruct_point_wiring(env, nsurf, relief, npm):
         warnings.simplefilter("ignore")
         p.setup()
         p.final_setup()
-    d = dangling_inputs(p, "AS.", allowed=("fuel_vols", "fuel_mass"))
+    d = dangling_inputs(p, "AS.", allowed=("fuel_vols", "fuel_mass"), names=[s["name"] for s in surfs])
     env.holds("C16,C15,C11,C17", "AerostructPoint: no input inside the point is left at its default while the point computes a variable of that name",
               not d, "; ".join(d[:4]))
+    fs = foreign_surface_components(p, [s["name"] for s in surfs])
+    env.holds("C16,C15,C10,C17", "AerostructPoint: the groups of each surface are built from that surface's own dictionary (material, options)",
+              not fs, "; ".join(fs[:4]))
     n_in = len([a for a in p.model._conn_global_abs_in2out if a.startswith("AS.")])
     env.holds("C16", "the wiring scan saw the point's inputs", n_in > 100, "%d inputs" % n_in)
     st = stale_reads(p, "")
